@@ -1,7 +1,7 @@
 from nucsvc.enginespec import *
 
 SOLVER_STATS_SAME = "forall(k, 0, 13, implies(k == STATS_IDX_SOLVER_CHOICE_NB or k == STATS_IDX_SOLVER_CHOICE_DEPTH or k == STATS_IDX_SOLVER_SOLUTION_NB, statistics[k] == old(statistics)[k]))"
-CA_ENS = CA_FRAME_IFACE + [CA_SHRINK, CA_STATUS, CA_BOUND, CA_UNBOUND,
+CA_ENS = CA_FRAME_IFACE + [CA_SHRINK, CA_STATUS, CA_BOUND, CA_UNBOUND, CA_PRESERVE,
     ("C17.solver_stats", SOLVER_STATS_SAME),
     ("C17.backtracks_mono", "statistics[STATS_IDX_SOLVER_BACKTRACK_NB] >= old(statistics)[STATS_IDX_SOLVER_BACKTRACK_NB]"),
     ("C09.records", "forall(l, 0, stacks_top[0], dom_update_stack[l, 0] == old(dom_update_stack)[l, 0] and dom_update_stack[l, 1] == old(dom_update_stack)[l, 1])"),
@@ -18,19 +18,28 @@ LEVELS_NONEMPTY = ("wf.levels_nonempty", "forall(l, 0, stacks_top[0] + 1, forall
 ALL_DECISION = ("C02.all_decision", "forall(d, 0, D, exists(k, 0, K, decision_domains[k] == d))")
 CH, BT, SOL, DEPTH = "STATS_IDX_SOLVER_CHOICE_NB", "STATS_IDX_SOLVER_BACKTRACK_NB", "STATS_IDX_SOLVER_SOLUTION_NB", "STATS_IDX_SOLVER_CHOICE_DEPTH"
 
-def solve_one_contract(variant, ca_target, extra_inv, extra_ens):
+# the level holding the ghost solution sigma (witness of 'sigma is still in the stack'), re-chosen after every iteration
+T_IT0 = "it0(stacks_top)[0]"
+LV_NEXT = f"ite(lv < {T_IT0}, lv, ite(in_box({SS}, {T_IT0}), {T_IT0}, ite(in_box({SS}, {T_IT0} + 1), {T_IT0} + 1, {T_IT0} + 2)))"
+SOL_HYP = f"sol() and 0 <= lv0 and lv0 <= old(stacks_top)[0] and in_box({SS0}, lv0)"
+
+
+def solve_one_contract(variant, ca_target, extra_inv, extra_ens, **kw):
     contract("nucs/solvers/backtrack_solver.py::solve_one", variant=variant, types=SOLVE_T,
         props=["C01", "C02", "C09", "C16", "C17", "C19", "C07"],
-        requires=WF_STATIC + [WF_DYN[0], WF_DYN[1], WF_DYN[3], LEVELS_NONEMPTY, ALL_DECISION, ("C17.depth0", f"statistics[{DEPTH}] >= stacks_top[0]")],
+        requires=WF_STATIC + [WF_DYN[0], WF_DYN[1], WF_DYN[3], LEVELS_NONEMPTY, ALL_DECISION, ("C17.depth0", f"statistics[{DEPTH}] >= stacks_top[0]"),
+                              ("C02.disjoint0", f"disjoint_levels({SS}, dom_update_stack, stacks_top[0])")],
         calls={"consistency_alg_fct": ca_target, "var_heuristic_fct": "iface:VarHeuristic", "dom_heuristic_fct": "iface:DomHeuristic"},
         ghost_calls={"consistency_alg_fct": "bc_calls", "dom_heuristic_fct": "choices", "backtrack": "bt"},
+        ghost={"sigma": "int[D]", "lv0": "int"}, ghost_init={"lv": "@lv0"}, call_ghosts={"consistency_alg_fct": {"sigma": "sigma"}},
         modifies=CA_MOD, result="i64[V]",
-        loops={1: dict(fingerprint="while True", invariant=[
+        loops={1: dict(fingerprint="while True", also_modifies=["lv"], ghost_updates={"lv": LV_NEXT}, invariant=[
             ("wf.top", "stacks_top[0] < H"), LEVELS_NONEMPTY, WF_DYN[3],
             ("C17.solutions", f"{dstat(SOL)} == 0"),
             ("C17.choices", f"{dstat(CH)} == choices"),
             ("C17.passes", "bc_calls == choices + bt"),
             ("C17.depth", f"statistics[{DEPTH}] >= stacks_top[0] and statistics[{DEPTH}] >= old(statistics)[{DEPTH}]"),
+            ("C02.disjoint", f"disjoint_levels({SS}, dom_update_stack, stacks_top[0])"),
             ("C01.within_root", f"implies(old(stacks_top)[0] == 0, forall(l, 0, stacks_top[0] + 1, forall(d, 0, D, {SS0}[0, d, MIN] <= {SS}[l, d, MIN] and {SS}[l, d, MAX] <= {SS0}[0, d, MAX])))"),
         ] + extra_inv)},
         ensures=[
@@ -40,14 +49,21 @@ def solve_one_contract(variant, ca_target, extra_inv, extra_ens):
             ("C17.choice_count", f"{dstat(CH)} == choices"),
             ("C17.conservation", "bc_calls == 1 + choices + ite(result is not None, bt, bt - 1)"),
             ("C02.exhausted", "implies(result is None, stacks_top[0] == 0)"),
+            ("C02.disjoint", f"disjoint_levels({SS}, dom_update_stack, stacks_top[0])"),
             ("C01.in_domain", f"implies(old(stacks_top)[0] == 0 and result is not None, forall(v, 0, V, {SS0}[0, dom_indices_arr[v], MIN] + dom_offsets_arr[v] <= result[v] and result[v] <= {SS0}[0, dom_indices_arr[v], MAX] + dom_offsets_arr[v]))"),
             ("C17.depth_mono", f"statistics[{DEPTH}] >= old(statistics)[{DEPTH}]"),
             ("wf.post", f"stacks_top[0] < H and statistics[{DEPTH}] >= stacks_top[0]"),
         ] + extra_ens,
         tags={"C01": ["C01"], "C17": ["C17"], "C02": ["C02"], "wf": ["C16", "C19"], "C09": ["C09"], "DomHeuristic": ["C19", "C09"]},
-        arities=[])
+        arities=[], **kw)
 
 solve_one_contract(None, "iface:ConsistencyAlg", [(f"C17.backtracks", f"{dstat(BT)} >= bt")], [])
 solve_one_contract("bc", "nucs/solvers/bound_consistency_algorithm.py::bound_consistency_algorithm",
     [("C17.backtracks", f"{dstat(BT)} == bt"), ("C17.bc_passes", f"{dstat('STATS_IDX_ALG_BC_NB')} == bc_calls")],
     [("C17.bc_law", f"{dstat('STATS_IDX_ALG_BC_NB')} == 1 + {dstat(CH)} + {dstat(BT)}")])
+
+# semantic variant: no solution of the stack is lost by a search (ghost solution sigma, ghost level witness lv); heavier queries, own budget
+solve_one_contract("sem", "iface:ConsistencyAlg",
+    [("C17.backtracks", f"{dstat(BT)} >= bt"), ("C02.remaining", f"implies({SOL_HYP}, 0 <= lv and lv <= stacks_top[0] and in_box({SS}, lv))")],
+    [("C02.no_loss", f"implies({SOL_HYP}, result is not None and 0 <= lv and lv <= stacks_top[0] and in_box({SS}, lv))")], timeout_ms=400000)
+REG.contracts["nucs/solvers/backtrack_solver.py::solve_one#sem"].props = []  # not registered in any check until it discharges within budget
